@@ -189,6 +189,17 @@ def rule_pad_structure(ctx, crate, rule="R-PAD-STRUCTURE"):
     ctx.check(ok, rule, "untruncated-when-not-requested", b.name, K.fn_loc(b), "without `!` over-wide content is written whole",
               "over-wide content is shortened although truncation was not requested (or never written whole)", cfg)
     # (what is written around the content, how many and on which side: R-TRUNC-CONSERVES `pads=diff` / `pad-side`)
+    # whatever the width (0 included) the content is written - whole, or cut when truncation was requested: no path to a normal
+    # return bypasses every write of `self.str`
+    contents = [c for c in ws + b.calls(r"std::fmt::Write::write_str") if len(c.args) > 1 and b.slice_args(c, [1]).has_field("str", PSD)]
+    err = set()
+    for k in b.calls(K.TRY_BRANCH):
+        te = K.try_edges(b, k)
+        if te:
+            err.add((te[0], te[2]))
+    leak = b.reach([0], avoid={c.bb for c in contents}, avoid_edges=err) & set(b.return_blocks())
+    ctx.check(bool(contents) and not leak, rule, "content-always-written", b.name, K.fn_loc(b), "every path through the padded field writes its content",
+              "the padded field can return without writing its content (an early return for a 'degenerate' width): `{msg:0}` without `!` must show the whole message", cfg)
 
 
 def rule_wide_msg(ctx, crate, rule="R-WIDE-MSG"):
